@@ -27,8 +27,10 @@ FUNCTIONS = [
     "nessai.proposal.flowproposal.FlowProposal.convert_to_samples",
 ]
 BOUNDS = {
-    "quick": dict(nlive="1..4", candidates_offered_per_iteration="<=2 (pool may run empty after any draw)", populate="nlive<=3, <=nlive+2 candidates", composition="populate(<=3) + 2 x consume + finalise, 1 spare candidate"),
-    "thorough": dict(nlive="1..6", candidates_offered_per_iteration="<=3 (pool may run empty after any draw)", populate="nlive<=4, <=nlive+2 candidates", composition="populate(<=3) + <=3 x consume + finalise, <=2 spare candidates"),
+    "quick": dict(nlive="1..4", candidates_offered_per_iteration="<=2 (pool may run empty after any draw)", populate="nlive<=3, <=nlive+2 candidates", composition="populate(<=3) + 2 x consume + finalise, 1 spare candidate",
+                  flow_pool="nlive 2, two parameters, proposal parameter order = model order or reversed, one pool point"),
+    "thorough": dict(nlive="1..6", candidates_offered_per_iteration="<=3 (pool may run empty after any draw)", populate="nlive<=4, <=nlive+2 candidates", composition="populate(<=3) + <=3 x consume + finalise, <=2 spare candidates",
+                     flow_pool="nlive 1..3, two parameters, proposal parameter order = model order or reversed, one pool point"),
 }
 SCOPE = ("Live likelihoods, candidates' likelihoods and priors are symbolic reals; candidates may also be NaN, +inf, -inf, "
          "exactly 0.0 (re-evaluated by the sampler) and have prior -inf. Sample identity is a concrete tag field.")
